@@ -108,7 +108,7 @@ def showRes : Res → String
   | .var k q home => "(v " ++ showKey k ++ " " ++ showQ q ++ " " ++ showScope home ++ ")"
   | .constant q l => "(c " ++ showQ q ++ " " ++ showLit l ++ ")"
   | .call k q => "(f " ++ showKey k ++ " " ++ showQ q ++ ")"
-  | .undefCall => "(u)"
+  | .undefCall isStr => if isStr then "(us)" else "(u)"
 
 def showVal (v : Val) : String :=
   match v.src with
